@@ -35,7 +35,9 @@ and the four primitives they call through module globals: `symlink`, `readlink`,
 * Processes are interleaved by a schedule of events (`lock i`, `unlock i` = the call is
   entered and runs up to its first primitive; `step i` = the pending primitive and the
   Python up to the next one; `crash i` = the process dies or exits wherever it is — from then
-  on `kill i 0` answers `ESRCH` and it never runs again).
+  on `kill i 0` answers `ESRCH` and it never runs again; `spawn i` = a NEW process is started that
+  happens to get the pid `i` of a dead one — pid reuse — with a fresh `FilesystemLock` object; the
+  operating system only does this while the lock path does not name pid `i`, see ASSUMES).
 -/
 namespace Twisted.Fs.Lock
 
@@ -79,7 +81,7 @@ structure Sys where
   procs : Nat → Proc
 
 inductive Ev
-  | lock (i : Nat) | unlock (i : Nat) | step (i : Nat) | crash (i : Nat)
+  | lock (i : Nat) | unlock (i : Nat) | step (i : Nat) | crash (i : Nat) | spawn (i : Nat)
   deriving DecidableEq, Repr
 
 /-- One primitive of process `i` (+ the Python that follows it), as a function of what the
@@ -135,6 +137,12 @@ def apply (s : Sys) (e : Ev) : Sys :=
   | .step i => if s.status i = .alive then stepProc s i else s
   | .crash i =>
     if s.status i = .alive then { s with status := fun j => if j = i then .dead else s.status j }
+    else s
+  | .spawn i =>
+    -- pid reuse: a dead pid that the lock path does not name is given to a brand-new process
+    if s.status i = .dead ∧ s.link ≠ some i then
+      { s with status := fun j => if j = i then .alive else s.status j,
+               procs := setProc s.procs i {} }
     else s
 
 def run (s : Sys) (es : List Ev) : Sys := es.foldl apply s
